@@ -56,6 +56,7 @@ type c15Script struct {
 	fc, fp                 [][2]uint64
 	batches                []*c15Batch
 	stopAt                 int // >= 0: call Stop() as soon as the callback log has that many entries
+	noReleased, noCheck    bool // "O <flags>": EventCallback.Released / CheckParents are nil
 }
 
 func c15Parse(in []string) *c15Script {
@@ -88,6 +89,11 @@ func c15Parse(in []string) *c15Script {
 	for _, t := range g[1:] {
 		if len(t) == 2 && t[0] == "S" {
 			sc.stopAt = int(c14U(t[1]))
+			continue
+		}
+		if len(t) == 2 && t[0] == "O" {
+			sc.noReleased = sc.noReleased || strings.Contains(t[1], "r")
+			sc.noCheck = sc.noCheck || strings.Contains(t[1], "c")
 			continue
 		}
 		if len(t) < 6 || t[0] != "B" {
@@ -209,7 +215,7 @@ func c15Run(in []string) []string {
 		EventsSemaphoreTimeout: 50 * time.Millisecond,
 		MaxTasks:               128,
 	}
-	proc := dagprocessor.New(sem, cfg, dagprocessor.Callback{
+	cbs := dagprocessor.Callback{
 		Event: dagprocessor.EventCallback{
 			Process: func(e dag.Event) error {
 				sample()
@@ -307,7 +313,16 @@ func c15Run(in []string) []string {
 			expectHandle = true
 			return idx.Lamport(highest)
 		},
-	})
+	}
+	if sc.noReleased {
+		cbs.Event.Released = nil // the semaphore wrapper of New must still release
+		vu.Stat("config_no_released")
+	}
+	if sc.noCheck {
+		cbs.Event.CheckParents = nil
+		vu.Stat("config_no_check")
+	}
+	proc := dagprocessor.New(sem, cfg, cbs)
 	proc.Start()
 
 	var firers sync.WaitGroup
@@ -700,7 +715,10 @@ func init() {
 	vu.Register("C15", &vu.Prop{
 		Gen: func(r *rand.Rand, n int, tier string, emit func(...string)) {
 			for i := 0; i < n; i++ {
-				if i%6 == 5 {
+				if i%12 == 7 {
+					fl := []string{"r", "c", "rc"}[r.Intn(3)]
+					c15Gen(r, func(in ...string) { emit(append(append([]string{}, in...), ";", "O", fl)...) })
+				} else if i%6 == 5 {
 					c15GenStopRace(r, emit)
 				} else if i%3 == 2 {
 					c15GenStop(r, emit)
